@@ -143,7 +143,7 @@ package crlrepository
 //@   props C04 C11 C12 C13 C16 C20
 //@   requires repoOK(R) && entryShell(entry) && chains != nil && chainsOK(chains)
 //@   requires[C13] entry_lock_held: wheld(entry.entryLock)
-//@   requires[C08,C11] first_load_only: !entry.Loaded
+//@   requires[C08,C11,C04,C16] first_load_only: !entry.Loaded
 //@   requires entryInv(entry)
 //@   ensures entryInv(entry)
 //@   assigns crlrepository.Entry.CRLStore, crlrepository.Entry.Loaded, crlrepository.Entry.LastUpdateSignatureVerifyFailed, crlrepository.Entry.LastUpdateSignature, crlrepository.Entry.Chains, M.map[string][]uint8, X.ldbhas, X.fs, X.net, X.retry, X.stream, X.spos, X.hacc, X.hkind, E.uint8, E.any, fresh:E.*core.CertificateChainEntry, H.crlloader.MultiSchemesCRLLoader, H.crlloader.URLLoader, H.crlloader.FileLoader
@@ -157,7 +157,7 @@ package crlrepository
 
 //@ func Repository.loadActively
 //@   writes crlrepository.Entry.Loaded, crlrepository.Entry.Chains
-//@   props C08 C10 C11 C13 C15 C16
+//@   props C04 C08 C10 C11 C13 C15 C16
 //@   ensures[C15] locations_recorded_before_the_first_load: called(Repository.loadCRL#any) ==> called(CRLStore.UpdateCRLLocations#1) && res(CRLStore.UpdateCRLLocations#1) == nil
 //@   requires repoOK(R) && entryShell(entry) && unheld(entry.entryLock) && chains != nil && chainsOK(chains) && crlLocations != nil
 //@   assigns L.held, crlrepository.Entry.CRLStore, crlrepository.Entry.Loaded, crlrepository.Entry.LastUpdateSignatureVerifyFailed, crlrepository.Entry.LastUpdateSignature, crlrepository.Entry.Chains, M.map[string][]uint8, X.ldbhas, X.fs, X.net, X.retry, X.stream, X.spos, X.hacc, X.hkind, E.uint8, E.any, fresh:E.*core.CertificateChainEntry, H.crlloader.MultiSchemesCRLLoader, H.crlloader.URLLoader, H.crlloader.FileLoader
